@@ -56,6 +56,20 @@ def _text(rows):
     return "".join(",".join(row) + "\n" for row in rows)
 
 
+class _NamedStream(io.StringIO):
+    name = None
+
+
+def _stream(text):
+    """The data as a stream with a name of its own: what a data set is called is derived from its content, so that
+    two data sets of one history are told apart by name and the same run on a fresh CID sees the same name."""
+    import zlib
+
+    result = _NamedStream(text, newline="")
+    result.name = "data-%08x.csv" % zlib.crc32(text.encode("utf-8", "surrogatepass"))
+    return result
+
+
 def _describe(item):
     if isinstance(item, Exception):
         location = getattr(item, "location", None)
@@ -84,7 +98,7 @@ def _finalize(held):
 def _read(cid, rows, mode="yield", take=None, until=None, held=None, keep=False, late_close_after=None):
     out = []
     ended = None
-    generator = cutplace.rows(cid, io.StringIO(_text(rows), newline=""), on_error=mode, validate_until=until)
+    generator = cutplace.rows(cid, _stream(_text(rows)), on_error=mode, validate_until=until)
     try:
         for item in generator:
             out.append(_describe(item))
@@ -106,7 +120,7 @@ def _read(cid, rows, mode="yield", take=None, until=None, held=None, keep=False,
 
 
 def _deferred_read(cid, rows, rows_between):
-    generator = cutplace.rows(cid, io.StringIO(_text(rows), newline=""), on_error="yield")
+    generator = cutplace.rows(cid, _stream(_text(rows)), on_error="yield")
     between = _read(cid, rows_between)
     out = []
     ended = None
@@ -119,7 +133,7 @@ def _deferred_read(cid, rows, rows_between):
 
 
 def _read_noclose(cid, rows, held=None, keep=False):
-    reader = validio.Reader(cid, io.StringIO(_text(rows), newline=""), on_error="yield")
+    reader = validio.Reader(cid, _stream(_text(rows)), on_error="yield")
     out = []
     ended = None
     try:
@@ -134,7 +148,7 @@ def _read_noclose(cid, rows, held=None, keep=False):
 
 def _validate(cid, rows, until):
     try:
-        cutplace.validate(cid, io.StringIO(_text(rows), newline=""), validate_until=until)
+        cutplace.validate(cid, _stream(_text(rows)), validate_until=until)
         return {"ended": None}
     except Exception as error:
         return {"ended": _describe(error)}
@@ -389,7 +403,7 @@ def _generated_op(cid, spec, tables, op, held):
     kind = op["kind"]
     if kind == "write":
         return _write(cid, rows[spec["fmt"].get("header", 0):], op["close"])
-    source = io.StringIO(_generated_text(spec, rows, op["end"]), newline="")
+    source = _stream(_generated_text(spec, rows, op["end"]))
     if kind == "validate":
         try:
             cutplace.validate(cid, source, validate_until=op["until"])
